@@ -2,7 +2,7 @@
    Only statements here; each is closed by [exact] of a lemma proved under coq/Addr/. *)
 From CSL Require Import Base.Prelude Cbor.Head Addr.VarNat Addr.VarNatProofs Addr.Crc32 Addr.Crc32Proofs
   Addr.Byron Addr.ByronProofs Addr.Base58 Addr.Base58Proofs Addr.Shelley Addr.ShelleyProofs
-  Addr.Bech32Iface Addr.Bech32Proofs Addr.Check Addr.CheckProofs.
+  Addr.Bech32Iface Addr.Bech32 Addr.Bech32Proofs Addr.TextProofs Addr.Check Addr.CheckProofs.
 Local Open Scope N_scope.
 
 (* ---- raw bytes: every address with network id 0-15 (base, pointer, enterprise, reward; key or
@@ -132,14 +132,77 @@ Theorem C11_byron_base58 : forall b, wf_byron b -> byron_from_base58 (byron_to_b
 Proof. exact byron_base58_roundtrip. Qed.
 Print Assumptions C11_byron_base58.
 
-(* ---- Bech32, for every prefix, under the round-trip law of the external crate ---- *)
-Theorem C11_bech32 : forall (b32_encode : list N -> bytes -> option (list N))
-                            (b32_decode : list N -> option (list N * bytes)),
-  (forall hrp data s, b32_encode hrp data = Some s -> exists hrp', b32_decode s = Some (hrp', data)) ->
+(* ---- Bech32, for every prefix: the crate (bech32 0.7.3) is modelled in Addr/Bech32.v and its
+   round-trip law is a THEOREM (no premise) ---- *)
+Theorem C11_bech32 : forall prefix a s, wf_address a ->
+  to_bech32 Bech32.b32_encode prefix a = Ok s -> from_bech32 Bech32.b32_decode s = Ok a.
+Proof. exact bech32_roundtrip_concrete. Qed.
+Print Assumptions C11_bech32.
+
+(* with the default (CIP5) prefix the text always exists *)
+Theorem C11_bech32_default_total : forall a p, default_prefix a = Ok p ->
+  exists s, to_bech32 Bech32.b32_encode None a = Ok s.
+Proof. exact to_bech32_default_total. Qed.
+Print Assumptions C11_bech32_default_total.
+
+(* the former statement, for ANY implementation of the two crate calls that satisfies the law *)
+Theorem C11_bech32_any_codec : forall (b32_encode : list N -> bytes -> option (list N))
+                                      (b32_decode : list N -> option (list N * bytes)),
+  (forall hrp data s, bytes_ok data -> b32_encode hrp data = Some s -> exists hrp', b32_decode s = Some (hrp', data)) ->
   forall prefix a s, wf_address a ->
   to_bech32 b32_encode prefix a = Ok s -> from_bech32 b32_decode s = Ok a.
 Proof. exact bech32_roundtrip. Qed.
-Print Assumptions C11_bech32.
+Print Assumptions C11_bech32_any_codec.
+
+(* the crate's law itself: every valid HRP (upper-case ones are lower-cased), EVERY byte string, no length limit *)
+Theorem C11_bech32_codec_roundtrip : forall hrp bs s, bytes_ok bs -> Bech32.b32_encode hrp bs = Some s ->
+  exists c, check_hrp hrp = Ok c /\ Bech32.b32_decode s = Some (hrp_lower c hrp, bs).
+Proof. exact b32_roundtrip. Qed.
+Print Assumptions C11_bech32_codec_roundtrip.
+
+Theorem C11_bech32_decode_encode : forall hrp data s, Forall (fun d => d < 32) data -> encode hrp data = Ok s ->
+  exists c, check_hrp hrp = Ok c /\ decode s = Ok (hrp_lower c hrp, data).
+Proof. exact decode_encode. Qed.
+Print Assumptions C11_bech32_decode_encode.
+
+Theorem C11_bech32_checksum_valid : forall hrp data,
+  polymod (hrp_expand hrp ++ data ++ create_checksum hrp data) = 1.
+Proof. exact checksum_valid. Qed.
+Print Assumptions C11_bech32_checksum_valid.
+
+Theorem C11_bech32_polymod_linear : forall c1 c2 v1 v2,
+  polymod_step (N.lxor c1 c2) (N.lxor v1 v2) = N.lxor (polymod_step c1 v1) (polymod_step c2 v2).
+Proof. exact step_linear. Qed.
+Print Assumptions C11_bech32_polymod_linear.
+
+Theorem C11_bech32_base32_roundtrip : forall bs, bytes_ok bs -> from_base32 (to_base32 bs) = Ok bs.
+Proof. exact base32_roundtrip. Qed.
+Print Assumptions C11_bech32_base32_roundtrip.
+
+(* rejections: mixed case, characters outside the charset, one wrong symbol, a wrong HRP letter *)
+Theorem C11_bech32_rejects_mixed_case : forall s sep lo up, rfind 49 s = Some sep ->
+  In lo (skipn (S sep) s) -> In up (skipn (S sep) s) -> is_lower lo = true -> is_upper up = true ->
+  decode s = Err.
+Proof. exact decode_rejects_mixed_case. Qed.
+Print Assumptions C11_bech32_rejects_mixed_case.
+
+Theorem C11_bech32_rejects_bad_char : forall s sep c, rfind 49 s = Some sep -> In c (skipn (S sep) s) ->
+  (forall case, decode_char case c = Err) -> decode s = Err.
+Proof. exact decode_rejects_bad_char. Qed.
+Print Assumptions C11_bech32_rejects_bad_char.
+
+Theorem C11_bech32_detects_one_wrong_symbol : forall hrp a e e' z, e < 32 -> e' < 32 -> e <> e' ->
+  verify_checksum hrp (a ++ e :: z) = true -> verify_checksum hrp (a ++ e' :: z) = false.
+Proof. exact verify_rejects_symbol_substitution. Qed.
+Print Assumptions C11_bech32_detects_one_wrong_symbol.
+
+Theorem C11_bech32_detects_wrong_hrp_letter : forall h1 x x' h2 data, x / 32 = x' / 32 -> x mod 32 <> x' mod 32 ->
+  verify_checksum (h1 ++ x :: h2) data = true -> verify_checksum (h1 ++ x' :: h2) data = false.
+Proof. exact verify_rejects_hrp_substitution. Qed.
+Print Assumptions C11_bech32_detects_wrong_hrp_letter.
+
+(* BIP-173 test vector "a12uel5l" *)
+Check (eq_refl : encode [97] [] = Ok [97; 49; 50; 117; 101; 108; 53; 108]).
 
 (* ---- embedded decoding: total and verbatim, at full strength outside narrow known classes ---- *)
 Definition C11_embedded_total_full : Prop := forall data, exists a, embedded_decode data = Ok a.
